@@ -4,6 +4,10 @@
 (* integer model; law lines (fw rt rv lc) carry residuals that the driver     *)
 (* reduced to integers (unit 1e-18 relative to the stated scale, "rel"; 1e-6, *)
 (* "ppm"); every tolerance, guard and decision is here.                       *)
+(* Object histories (Reset / lo / lq lines) are validated statefully: the     *)
+(* variable obj holds the model state of the live LocalCartesian object       *)
+(* (Geocentric!LcApply); a "Reset" line starts a new history.  Such lines     *)
+(* appear only in traces that are sharded at "Reset" lines.                   *)
 EXTENDS Geocentric, TraceKit
 
 CONSTANTS
@@ -15,7 +19,7 @@ CONSTANTS
   ShellPpm,  \* 5000 km / a_WGS84 in ppm: the shell in which the 7 nm bound is stated
   ExtSlack,  \* factor for the two Extreme ellipsoids for which the documentation makes no accuracy statement
   UflowLo, UflowHi   \* |P|/a in [2^-UflowLo, 2^-UflowHi] is excluded from the laws: see notes/C07.md (finding: Reverse is wrong there)
-VARIABLE l
+VARIABLES l, obj
 
 Slack(fi) == IF fi \in Extreme THEN ExtSlack ELSE 1
 Le(x, t) == x >= 0 /\ x <= t             \* residuals are non-negative; 2000000001 (NaN) and clipped values fail
@@ -36,7 +40,7 @@ Scaled(M) == [i \in 1..9 |-> 1000000000 * M[i]]
 GfOK(r) ==
   LET P == Fwd(r.fi, r.lat, r.lon, r.h)  t == LatTol(MaxAbs3(P)) IN
   /\ NearI(r.X, P[1], t) /\ NearI(r.Y, P[2], t) /\ NearI(r.Z, P[3], t)
-  /\ r.M = Scaled(Rot(r.lat, r.lon)) /\ r.mex /\ r.same
+  /\ r.M = Scaled(Rot(r.lat, r.lon)) /\ r.mex /\ r.same /\ MFamilyOK(r.mv)
 
 \* observed answer of a Reverse at the lattice point P against the admissible set a; R0 = frame the matrix is expressed in
 RevAnsOK(r, P, a, R0, mscale, motol) ==
@@ -52,27 +56,95 @@ RevAnsOK(r, P, a, R0, mscale, motol) ==
      ELSE Le(r.mo, motol)
 GrOK(r) ==
   LET P == <<r.X, r.Y, r.Z>> IN
-  /\ OnAxes(r.X, r.Y, r.Z) /\ r.same
+  /\ OnAxes(r.X, r.Y, r.Z) /\ r.same /\ MFamilyOK(r.mv)
   /\ RevAnsOK(r, P, RevSpec(r.fi, r.X, r.Y, r.Z), Ident, MaxAbs3(P), TolRel)
 
-LfOK(r) ==
-  LET st == LocalState(r.fi, r.lat0, r.lon0, r.h0)
-      P == Fwd(r.fi, r.lat, r.lon, r.h)
-      p == LocalFwd(st, P)
-      t == 2 * LatTol(Max(MaxAbs3(P), MaxAbs3(st.P0)))
+\* Forward / Reverse of a LocalCartesian object whose model state is st = <<fi, lat0, lon0, h0>>
+LfAt(r, st, lat, lon, h) ==
+  LET loc == LcLocal(st)
+      P == Fwd(st[1], lat, lon, h)
+      p == LocalFwd(loc, P)
+      t == 2 * LatTol(Max(MaxAbs3(P), MaxAbs3(loc.P0)))
   IN /\ NearI(r.x, p[1], t) /\ NearI(r.y, p[2], t) /\ NearI(r.z, p[3], t)
-     /\ r.M = Scaled(TMatMat(st.R0, Rot(r.lat, r.lon))) /\ r.mex /\ r.same /\ r.org
-LrOK(r) ==
-  LET st == LocalState(r.fi, r.lat0, r.lon0, r.h0)
-      P == LocalToGeocentric(st, <<r.x, r.y, r.z>>)
-  IN /\ OnAxes(P[1], P[2], P[3])
-     /\ RevAnsOK(r, P, RevSpec(r.fi, P[1], P[2], P[3]), st.R0, Max(MaxAbs3(P), MaxAbs3(st.P0)), 2 * TolRel)
+     /\ r.M = Scaled(TMatMat(loc.R0, Rot(lat, lon))) /\ r.mex /\ r.same /\ MFamilyOK(r.mv)
+LrAt(r, st, x, y, z) ==
+  LET loc == LcLocal(st)
+      P == LocalToGeocentric(loc, <<x, y, z>>)
+  IN /\ OnAxes(P[1], P[2], P[3]) /\ r.same /\ MFamilyOK(r.mv)
+     /\ RevAnsOK(r, P, RevSpec(st[1], P[1], P[2], P[3]), loc.R0, Max(MaxAbs3(P), MaxAbs3(loc.P0)), 2 * TolRel)
+LfOK(r) == LfAt(r, <<r.fi, r.lat0, r.lon0, r.h0>>, r.lat, r.lon, r.h) /\ r.org
+LrOK(r) == LrAt(r, <<r.fi, r.lat0, r.lon0, r.h0>>, r.x, r.y, r.z)
+
+\* one call of an M overload chosen by TLC (entry point x length)
+MvOK(r) == r.ent \in MEntries /\ r.n \in MSizes /\ r.m[1] = r.n /\ MCallOK(r.m)
+
+\* a Geocentric object built in one of the documented ways
+GoOK(r) ==
+  /\ r.form \in GeoForms /\ r.fi \in GeoFormFis(r.form)
+  /\ IF r.form = "default" THEN ~r.init           \* named rule Uninit: nothing else is documented for such an object
+     ELSE /\ r.init
+          /\ r.eq /\ r.neq >= 8                   \* bit for bit the object Geocentric(a, f) built from the family's literals
+          /\ r.ia = r.ea /\ r.if = r.ef            \* EquatorialRadius(), Flattening(): "the value used in the constructor"
+          /\ (r.fi = WGS => r.iaq = WGS84A /\ r.iaex /\ r.irf = WGS84RF)
+
+(* ------------------------------ CartConvert lines ------------------------ *)
+\* a printed number: optional '-', digits, and - iff nd > 0 - a '.' followed by exactly nd digits (byte codes)
+IsDigit(c) == c >= 48 /\ c <= 57
+RECURSIVE IntOf(_, _, _, _)
+IntOf(tok, i, j, acc) == IF i > j THEN acc ELSE IntOf(tok, i + 1, j, 10 * acc + (tok[i] - 48))
+ParseNum(tok) ==
+  LET neg == Len(tok) > 0 /\ tok[1] = 45
+      s == IF neg THEN 2 ELSE 1
+      dots == {i \in 1..Len(tok) : tok[i] = 46}
+      d == IF dots = {} THEN Len(tok) + 1 ELSE CHOOSE i \in dots : \A j \in dots : i <= j
+  IN [ok |-> /\ Cardinality(dots) <= 1 /\ d > s /\ d - s <= 10
+             /\ (d - s = 1 \/ tok[s] # 48)                                  \* no leading zeros
+             /\ \A i \in s..Len(tok) : i = d \/ IsDigit(tok[i])
+             /\ (dots # {} => d < Len(tok)),
+      neg |-> neg,
+      ip |-> IF d > s /\ d - s <= 10 /\ (\A i \in s..(d - 1) : IsDigit(tok[i])) THEN IntOf(tok, s, d - 1, 0) ELSE -1,
+      nd |-> IF dots = {} THEN 0 ELSE Len(tok) - d,
+      frz |-> \A i \in (d + 1)..Len(tok) : tok[i] = 48]
+\* the token prints the integer k with nd decimals, all zero: lattice values are exact to well below half a unit of the
+\* last printed digit (documented error 7 nm; at most 6 decimals of a metre / 11 of a degree are printed).  Named rule
+\* ZeroSignFree: "-0.000" is accepted for 0.
+TokIs(tok, k, nd) ==
+  LET p == ParseNum(tok) IN
+  p.ok /\ p.nd = nd /\ p.frz /\ p.ip = Abs(k) /\ (k # 0 => p.neg = (k < 0))
+ToolOK(r) ==
+  LET W == ToolWant(r.mode, r.fi, r.w, r.o[1], r.o[2], r.o[3], r.a[1], r.a[2], r.a[3]) IN
+  /\ r.mode \in ToolModes /\ r.status = 0 /\ r.has /\ Len(r.tok) = 3 /\ r.prec \in 0..6
+  /\ (r.mode \in {"gr", "lr"} => ToolExactRev(r.mode, r.fi, r.o[1], r.o[2], r.o[3], r.a[1], r.a[2], r.a[3]))
+  /\ \A i \in 1..3 : \E k \in W[i][2] : TokIs(r.tok[i], k, ToolDigits(W[i][1], r.prec))
+
+(* ------------------------------ object histories ------------------------- *)
+OpOf(r) == <<r.op, r.fi, r.a[1], r.a[2], r.a[3]>>
+ZeroOf(r) == IF r.mode = "lat" THEN 0 ELSE <<0, 0, 0>>
+IsObjLine(r) == r.e \in {"Reset", "lo", "lq"}
+NextObj(st, r) == CASE r.e = "Reset" -> LcNone
+                    [] r.e = "lo" -> LcApply(st, OpOf(r), ZeroOf(r))
+                    [] OTHER -> st
+\* a constructor, Reset, copy or assignment: afterwards the live object is, observation for observation and bit for bit,
+\* the fresh object LocalCartesian(lat0, lon0, h0, earth) at the model's state (r.st is what the driver built the fresh
+\* object from), and its inspectors return that state
+LoOK(r, st) ==
+  LET st2 == LcApply(st, OpOf(r), ZeroOf(r)) IN
+  /\ r.mode \in {"lat", "rnd"} /\ LcEnabled(st, OpOf(r)) /\ r.op \notin {"fw", "rv"}
+  /\ r.st = st2
+  /\ r.eq /\ r.neq >= 12
+  /\ r.ilat = st2[2] /\ r.ih = st2[4] /\ r.ilonr = 0 /\ r.ilonrng
+  /\ r.ia = r.ea /\ r.if = r.ef
+  /\ (st2[1] = WGS => r.iaq = WGS84A /\ r.iaex /\ r.irf = WGS84RF)
+\* a lattice query on the live object
+LqOK(r, st) ==
+  /\ st # LcNone /\ r.mode = "lat" /\ r.st = st /\ r.eq /\ LcModelled(st)
+  /\ IF r.op = "fw" THEN LfAt(r, st, r.a[1], r.a[2], r.a[3]) ELSE r.op = "rv" /\ LrAt(r, st, r.a[1], r.a[2], r.a[3])
 
 (* ------------------------------ law lines -------------------------------- *)
 \* Forward = closed form; M = orthonormal right-handed ENU frame; M optional; cross-class circle radius / height
 FwOK(r) ==
   LET tol == TolRel * Slack(r.fi) IN
-  /\ r.fin /\ r.msame
+  /\ r.fin /\ r.msame /\ MFamilyOK(r.mv)
   /\ Le(r.dF, tol)
   /\ Le(r.mo, TolRel) /\ Le(r.mort, TolRel) /\ Le(r.mdet, TolRel)
   /\ Le(r.mup, 8 * tol)                    \* difference quotient over d = scale/4 of two forward values, each within tol
@@ -96,7 +168,7 @@ RvOK(r) ==
       z0 == r.sz = 0   r0 == r.sx = 0 /\ r.sy = 0
       reg == RegimeOf(cls, r.ex, r.ev, z0, r0)
   IN
-  /\ r.fin /\ r.rng /\ r.msame
+  /\ r.fin /\ r.rng /\ r.msame /\ MFamilyOK(r.mv)
   /\ (r.reg = "rand" \/ r.reg = reg)                                                   \* the box really is in its regime
   /\ Le(r.mo, TolRel) /\ Le(r.mort, TolRel) /\ Le(r.mdet, TolRel)                      \* M = ENU frame at the returned position
   /\ (r0 => r.lon0)                                                                    \* X = Y = 0 -> lon = 0
@@ -115,26 +187,33 @@ LcOK(r) ==
   LET tol == 2 * TolRel * Slack(r.fi)           \* P and P0 are each within TolRel of the closed form
       toli == tol + TolFR * Slack(r.fi)         \* + one Geocentric Reverse
   IN
-  /\ r.fin /\ r.rng /\ r.msame /\ r.org
+  /\ r.fin /\ r.rng /\ r.msame /\ r.org /\ MFamilyOK(r.mvf) /\ MFamilyOK(r.mvr)
   /\ Le(r.o0, tol) /\ Le(r.up, tol) /\ Le(r.ax, tol) /\ Le(r.rig, tol)
   /\ Le(r.inv1, toli) /\ Le(r.inv2, toli)
   /\ Le(r.mrel, 2 * TolRel) /\ Le(r.mrev, 2 * TolRel) /\ Le(r.mort, 2 * TolRel) /\ Le(r.mdet, 2 * TolRel)
 
 Obligation(r) ==
-  CASE r.e = "gf" -> GfOK(r) [] r.e = "gr" -> GrOK(r) [] r.e = "lf" -> LfOK(r) [] r.e = "lr" -> LrOK(r)
+  CASE r.e = "Reset" -> r.mode \in {"lat", "rnd"}
+    [] r.e = "lo" -> LoOK(r, obj) [] r.e = "lq" -> LqOK(r, obj)
+    [] r.e = "mv" -> MvOK(r) [] r.e = "go" -> GoOK(r) [] r.e = "tool" -> ToolOK(r)
+    [] r.e = "gf" -> GfOK(r) [] r.e = "gr" -> GrOK(r) [] r.e = "lf" -> LfOK(r) [] r.e = "lr" -> LrOK(r)
     [] r.e = "fw" -> FwOK(r) [] r.e = "rt" -> RtOK(r) [] r.e = "rv" -> RvOK(r) [] r.e = "lc" -> LcOK(r)
     [] OTHER -> FALSE
 
 Expected(r) ==
-  CASE r.e = "gf" -> Fwd(r.fi, r.lat, r.lon, r.h)
+  CASE r.e = "lo" -> <<obj, LcApply(obj, OpOf(r), ZeroOf(r))>>
+    [] r.e = "lq" -> obj
+    [] r.e = "tool" -> ToolWant(r.mode, r.fi, r.w, r.o[1], r.o[2], r.o[3], r.a[1], r.a[2], r.a[3])
+    [] r.e = "gf" -> Fwd(r.fi, r.lat, r.lon, r.h)
     [] r.e = "gr" -> RevSpec(r.fi, r.X, r.Y, r.Z)
     [] r.e = "lf" -> LocalFwd(LocalState(r.fi, r.lat0, r.lon0, r.h0), Fwd(r.fi, r.lat, r.lon, r.h))
     [] r.e = "lr" -> LET P == LocalToGeocentric(LocalState(r.fi, r.lat0, r.lon0, r.h0), <<r.x, r.y, r.z>>) IN RevSpec(r.fi, P[1], P[2], P[3])
     [] r.e = "rv" -> <<RegimeOf(Class(r.fi), r.ex, r.ev, r.sz = 0, r.sx = 0 /\ r.sy = 0), Underflow(r)>>
     [] OTHER -> <<>>
 
-Init == l = 1 /\ KitInit
+Init == l = 1 /\ obj = LcNone /\ KitInit
 Next == /\ l <= NT
+        /\ obj' = NextObj(obj, T[l])
         /\ Require(Obligation(T[l]), l, "geoc-" \o T[l].e, Expected(T[l]))
         /\ Consumed(l)
         /\ l' = l + 1
